@@ -51,7 +51,7 @@ def gen_case(rng, tier):
             f = rng.randrange(len(facts))
             op['expr'] = {'kind': 'instance', 'fact': f, 'base': rng.randrange(4)}
         elif facts and x < 0.7:
-            op['expr'] = {'kind': 'arith', 'fact': rng.randrange(len(facts)), 'var': rng.choice([0, 0, 1, 2, 3, 4])}
+            op['expr'] = {'kind': 'arith', 'fact': rng.randrange(len(facts)), 'var': rng.choice([0, 0, 1, 2, 3, 4, 5, 6])}
         else:
             op['expr'] = {'kind': 'path', 'path': rng.choice(STRUCT_PATHS)}
         ops.append(op)
@@ -80,7 +80,7 @@ def expr_text(e, facts):
         return '%s instance of element(*, %s%s)' % (f['path'], t, '?' if f.get('nil') else '')
     kind = G.TYPES[f['type']][1]
     if kind in ('int', 'Decimal', 'float'):
-        return ['%s + 1', '%s + 1.5', 'sum(%s)', 'abs(%s)', 'round(%s)'][e.get('var') or 0] % f['path']
+        return ['%s + 1', '%s + 1.5', 'sum(%s)', 'abs(%s)', 'round(%s)', '%s idiv 1', '%s * 2'][e.get('var') or 0] % f['path']
     um = G.union_member(f['type'], f['lex']) if kind == 'union' and not f.get('nil') else None
     if um is not None and um[1] in ('integer', 'int', 'short', 'decimal', 'double'):
         # arithmetic and value comparison on a node whose type is a union and whose value is numeric
@@ -341,7 +341,7 @@ def run_case(case, world):
         # (ii-b) arithmetic and comparison use the typed value
         if sk is not None and e['kind'] == 'arith' and cfg['facts'] and (built[0] or sk != 'A') and ref == outcome \
                 and (text.endswith(' + 1') or text.endswith(' + 1.5') or text.endswith(' lt 1000000')
-                     or text.startswith(('sum(', 'abs(', 'round('))):
+                     or text.startswith(('sum(', 'abs(', 'round(')) or text.endswith((' idiv 1', ' * 2'))):
             f = cfg['facts'][e['fact'] % len(cfg['facts'])]
             stats['typed_value_checks'] += 1
             try:
@@ -351,6 +351,9 @@ def run_case(case, world):
             numeric = isinstance(decoded, (int, float, decimal.Decimal)) and not isinstance(decoded, bool)
             if f.get('nil') or not numeric:
                 pass        # an empty or non numeric operand: the outcome is not judged here
+            elif text.endswith(' idiv 1') and isinstance(decoded, float) and (decoded != decoded or decoded in (
+                    float('inf'), float('-inf'))):
+                pass        # FOAR0002 is the right outcome: not judged here
             elif outcome[0] == 'error':
                 extra = ['type:' + f['type']]
                 um = G.union_member(f['type'], f['lex']) if sk == 'A' else None
@@ -358,10 +361,17 @@ def run_case(case, world):
                     extra.append('union-value-of-a-later-member')
                 violate('TYPED_VALUE', 'typed-arithmetic-raises:%s' % f['type'],
                         '%s (%r, type %s, decoded %r) raises %r' % (text, f['lex'], f['type'], decoded, outcome[:3]), feats + extra)
-            elif text.endswith(' + 1') or text.endswith(' + 1.5') or text.startswith(('sum(', 'abs(', 'round(')):
+            elif text.endswith(' idiv 1') and isinstance(decoded, float) and (decoded != decoded or decoded in (
+                    float('inf'), float('-inf'))):
+                pass        # FOAR0002: not judged here
+            elif text.endswith((' + 1', ' + 1.5', ' idiv 1', ' * 2')) or text.startswith(('sum(', 'abs(', 'round(')):
                 got = items[0] if len(items) == 1 else None
                 if text.endswith(' + 1'):
                     want = decoded + 1
+                elif text.endswith(' idiv 1'):
+                    want = int(decoded)
+                elif text.endswith(' * 2'):
+                    want = decoded * 2
                 elif text.startswith('sum('):
                     want = decoded
                 elif text.startswith('abs('):
@@ -385,7 +395,7 @@ def run_case(case, world):
                         got = None
                 ok = got is not None and not isinstance(got, (str, bool)) and same_value(got, want) and \
                     isinstance(got, float) == isinstance(want, float)
-                if ok and sk == 'A' and f['type'] in ('float', 'double') and not f.get('xsi'):
+                if ok and sk == 'A' and f['type'] in ('float', 'double') and not f.get('xsi') and not text.endswith(' idiv 1'):
                     # xs:float + xs:decimal is an xs:float, xs:double + xs:decimal an xs:double
                     ok = type(got).__name__.startswith('Float') == (f['type'] == 'float')
                 if not ok:
